@@ -221,6 +221,91 @@ pub fn main(prop: &'static str) {
         }
     }
 
+    // ---- C02 manifest leg: feature-trigger x `rust::` import templates. The generated Cargo project must at least
+    // be a valid manifest (`cargo metadata --offline --no-deps`), a necessary condition for "the project compiles".
+    if prop == "C02" && std::env::var("VERIF_NO_SEEDS").is_err() {
+        let features: [(&str, &str, &str); 4] = [
+            ("plain", "", "def main() -> None:\n    println(1)\n"),
+            ("serde", "@derive(Serialize, Deserialize, Debug, Clone)\nmodel P:\n    x: int\n    y: str\n\n", "def main() -> None:\n    p = P(x=1, y=\"a\")\n    println(json_stringify(p))\n"),
+            ("async", "async def compute(n: int) -> int:\n    return n * 2\n\n", "async def main() -> None:\n    v = await compute(21)\n    println(v)\n"),
+            ("serde+async", "@derive(Serialize, Deserialize, Debug, Clone)\nmodel P:\n    x: int\n\nasync def compute(n: int) -> int:\n    return n * 2\n\n", "async def main() -> None:\n    v = await compute(21)\n    p = P(x=v)\n    println(json_stringify(p))\n"),
+        ];
+        let imports: [(&str, &str); 8] = [
+            ("none", ""),
+            ("tokio-from", "from rust::tokio::sync import Notify\n"),
+            ("tokio-crate", "import rust::tokio\n"),
+            ("serde_json-from", "from rust::serde_json import from_str as json_parse\n"),
+            ("serde-from", "from rust::serde import Serialize as SerTrait\n"),
+            ("rand-from", "from rust::rand import Rng, thread_rng\n"),
+            ("regex+uuid", "from rust::regex import Regex\nfrom rust::uuid import Uuid\n"),
+            ("tokio+serde_json+rand", "from rust::tokio::sync import Notify\nfrom rust::serde_json import from_str as json_parse\nfrom rust::rand import Rng\n"),
+        ];
+        let mut templ: Vec<(String, Project)> = Vec::new();
+        for (fname, decls, main) in features.iter() {
+            for (iname, imp) in imports.iter() {
+                let src = format!("{imp}\n{decls}{main}");
+                templ.push((format!("{fname}/{iname}"), Project::single("tmpl", &src)));
+            }
+        }
+        let projects: Vec<Project> = templ.iter().map(|t| t.1.clone()).collect();
+        let checks = farm.run_many(&projects, Mode::Check);
+        let gens = farm.run_many(&projects, Mode::Generate);
+        let jobs: Vec<(usize, std::path::PathBuf)> = gens
+            .iter()
+            .enumerate()
+            .filter(|(i, g)| checks[*i].check.as_ref().is_some_and(|c| c.ok()) && g.build.as_ref().is_some_and(|b| b.ok()))
+            .map(|(i, g)| {
+                let d = farm.case_dir();
+                for (rel, text) in &g.generated {
+                    let p = d.join(rel);
+                    if let Some(par) = p.parent() {
+                        let _ = std::fs::create_dir_all(par);
+                    }
+                    let _ = std::fs::write(p, text);
+                }
+                (i, d)
+            })
+            .collect();
+        let metas = farm.par_map(&jobs, |(_, d)| {
+            let mut c = std::process::Command::new("cargo");
+            c.args(["metadata", "--offline", "--no-deps", "--format-version", "1", "--manifest-path"]).arg(d.join("Cargo.toml")).env("CARGO_NET_OFFLINE", "true");
+            let r = crate::farm::run_cmd(c, std::time::Duration::from_secs(300));
+            let _ = std::fs::remove_dir_all(d);
+            r
+        });
+        for (i, (name, _)) in templ.iter().enumerate() {
+            if !checks[i].check.as_ref().is_some_and(|c| c.ok()) {
+                ev.discard("template_rejected_by_checker");
+                continue;
+            }
+            ev.case(Some(util::hash_str(name)));
+            ev.class("manifest_template");
+            if !gens[i].build.as_ref().is_some_and(|b| b.ok()) {
+                let (sig, d) = gens[i].build.as_ref().map(build_signature).unwrap_or_default();
+                let key = format!("template:{name}:{sig}");
+                if !out.is_known(&key) {
+                    let body = replay_json(&templ[i].1.files[0].1, None, &key);
+                    out.violation(&mut ev, &key, "json", &body, &format!("accepted by --check but project generation failed\n{d}"));
+                }
+                continue;
+            }
+            if let Some(pos) = jobs.iter().position(|(j, _)| *j == i) {
+                let m = &metas[pos];
+                if m.timed_out {
+                    out.inconclusive("cargo metadata watchdog");
+                } else if m.status != Some(0) {
+                    let first = strip_ansi(&m.stderr).lines().find(|l| l.contains("error")).unwrap_or("").to_string();
+                    let key = format!("template:{name}:manifest-invalid");
+                    if !out.is_known(&key) {
+                        let cargo_toml = gens[i].generated.iter().find(|(r, _)| r == "Cargo.toml").map(|(_, t)| t.clone()).unwrap_or_default();
+                        let body = replay_json(&templ[i].1.files[0].1, None, &key);
+                        out.violation(&mut ev, &key, "json", &body, &format!("the generated Cargo.toml is rejected by cargo: {first}\n{}\n--- Cargo.toml ---\n{cargo_toml}", util::truncate(&strip_ansi(&m.stderr), 600)));
+                    }
+                }
+            }
+        }
+    }
+
     // ---- generated programs
     let n: usize = std::env::var("VERIF_N").ok().and_then(|s| s.parse().ok()).unwrap_or(args.tier.pick(300usize, 6000usize));
     if let Ok(off_list) = std::env::var("VERIF_SW_OFF") {
